@@ -173,9 +173,16 @@ func Settle(timeout time.Duration, ignore func(Goroutine) bool, pred func([]Goro
 func HandlerGoroutines() int {
 	n := 0
 	for _, g := range AllGoroutines() {
-		if strings.Contains(g.CreatedBy, "coreutils/syncer.(*Syncer).runPeer") {
-			n++
+		if !strings.Contains(g.CreatedBy, "coreutils/syncer.(*Syncer).runPeer") {
+			continue
 		}
+		// a goroutine of runPeer that does nothing but select (e.g. a
+		// shutdown watcher a repaired tree may add) is not a handler: handlers
+		// never select in the closure itself
+		if strings.HasPrefix(g.State, "select") && len(g.Funcs) > 0 && strings.Contains(g.Funcs[0], "syncer.(*Syncer).runPeer.func") {
+			continue
+		}
+		n++
 	}
 	return n
 }
